@@ -481,7 +481,7 @@ MANIFEST_ENTRY = {
 def jobs(tier):
     q = tier == 'quick'
     js = []
-    kw = dict(validate=(5 if q else 2), timeout_ms=60000, budget_s=(300 if q else 1500), extra_shims=EXTRA)
+    kw = dict(validate=(5 if q else 2), timeout_ms=60000, budget_s=(600 if q else 3000), extra_shims=EXTRA)
     # symbolic knots: products of knot differences make the d = 2 obligations non-linear; (2,2) and the two-grid history on 3 symbolic knots do not
     # finish within the cap (probed: > 300 s) and are outside the bound.  Refinement trees have concrete geometry: there the solver only
     # enumerates the trees and the removed leaf.
